@@ -205,6 +205,25 @@ def run_real(kind: str, pd: dict, xd: dict) -> Tuple[dict, List[str], dict]:
             out = {"ok": wire.canon_value(ctx, r)}
     except BaseException as e:  # noqa
         out = {"raised": wire.exn_name(e)}
+    if kind == "pred" and pd["k"] == "Regex" and isinstance(x, str):
+        # "regex match at the start", for the pattern object the predicate was given - flags included, whatever other
+        # RegexPredicate instances have been asked before (checked against `re` itself, not against the model)
+        import re as _re
+        from koda_validate import RegexPredicate
+        src = build.mk_pat(pd["pat"]).pattern
+        for flags in (0, _re.IGNORECASE, _re.MULTILINE | _re.DOTALL):
+            pat = _re.compile(src, flags)
+            twin = RegexPredicate(pat)
+            for sx in (x, x.upper(), "\n" + x):
+                try:
+                    got = twin(sx)
+                except BaseException as e:  # noqa
+                    got = "raised " + type(e).__name__
+                want = pat.match(sx) is not None
+                if got != want:
+                    fails.append(f"RegexPredicate(re.compile({src!r}, flags={int(flags)}))({sx!r}) returned {got}; "
+                                 f"pattern.match gives {want}")
+                    break
     if wire.canon_value(ctx, x) != before:
         fails.append(f"{pd['k']} mutated its argument")
     return out, fails, before
